@@ -160,6 +160,7 @@ def coq_gval(v):
     return "(%s %s)" % (ctor, coq_bytes(t))
 
 
+POINTER_KINDS = ("pstringer", "pint", "ppstr", "ppstringer", "verr", "err", "pperrstr")
 VNODE_IDX = [0, 9, 10, 99]     # harness/cmd/c15/repr.go vnodeIdx
 
 
@@ -612,7 +613,8 @@ class C15(Property):
             if rng.random() < 0.45:
                 for k in rng.sample(range(len(nodes)), rng.randint(1, min(2, len(nodes)))):
                     tw = twin(rng, nodes[k])
-                    if tw is not None:
+                    # a twin must be a DIFFERENT Go value: the same (kind, text) again is one only for pointer kinds
+                    if tw is not None and (tw["kind"] in POINTER_KINDS or tw not in nodes):
                         twins.setdefault(k, []).append(len(nodes))
                         nodes = nodes + [tw]
             R = rng.choice([0, 0, 0, 0, 50, 120, 150])
